@@ -1,17 +1,315 @@
 package main
 
 import (
+	"flag"
 	"fmt"
-	"golang.org/x/tools/go/packages"
-	"golang.org/x/tools/go/ssa"
-	"golang.org/x/tools/go/ssa/ssautil"
+	"os"
+	"os/exec"
+	"path/filepath"
+	"sort"
+	"strings"
+	"sync"
+	"time"
 )
 
-func main() {
-	cfg := &packages.Config{Mode: packages.LoadAllSyntax, Dir: "/repo", BuildFlags: []string{"-tags=verif"}}
-	pkgs, err := packages.Load(cfg, "./...")
-	if err != nil { panic(err) }
-	prog, spkgs := ssautil.AllPackages(pkgs, ssa.NaiveForm|ssa.InstantiateGenerics)
-	prog.Build()
-	fmt.Println(len(spkgs))
+func (vc *VC) query(o *Obligation) string {
+	var b strings.Builder
+	b.WriteString("(set-option :produce-models true)\n(set-logic ALL)\n")
+	for _, d := range vc.decls {
+		b.WriteString(d)
+		b.WriteByte('\n')
+	}
+	for _, f := range vc.facts[:o.FactIdx] {
+		if f.block >= 0 && o.Block >= 0 && f.block != o.Block && !vc.reachable[[2]int{f.block, o.Block}] {
+			continue
+		}
+		b.WriteString(f.text)
+		b.WriteByte('\n')
+	}
+	fmt.Fprintf(&b, "(assert %s)\n", o.Guard)
+	fmt.Fprintf(&b, "(assert (not %s))\n", o.Goal)
+	b.WriteString("(check-sat)\n")
+	if len(o.Witness) > 0 {
+		var ts []string
+		for _, w := range o.Witness {
+			ts = append(ts, w.T)
+		}
+		fmt.Fprintf(&b, "(get-value (%s))\n", strings.Join(ts, " "))
+	}
+	return b.String()
 }
+
+type runOpts struct {
+	scratch  string
+	timeoutS int
+	all      bool
+	workers  int
+	verbose  bool
+}
+
+// discharge runs every obligation of the given VCs through the solver race.
+func discharge(vcs []*VC, opt runOpts) {
+	type job struct {
+		vc *VC
+		o  *Obligation
+	}
+	var jobs []job
+	for _, vc := range vcs {
+		for _, o := range vc.obls {
+			jobs = append(jobs, job{vc, o})
+		}
+	}
+	ch := make(chan job)
+	var wg sync.WaitGroup
+	for i := 0; i < opt.workers; i++ {
+		wg.Add(1)
+		go func() {
+			defer wg.Done()
+			for j := range ch {
+				t := opt.timeoutS
+				if j.o.Expect == "fail" {
+					t = 2
+					if t > opt.timeoutS {
+						t = opt.timeoutS
+					}
+				}
+				r := raceSolve(opt.scratch, j.o.Name, j.vc.query(j.o), t, opt.all && j.o.Expect != "fail")
+				if r.Answer != "unsat" && r.Answer != "sat" && j.o.Expect != "fail" {
+					// one retry with a doubled budget (DESIGN 7, alarm hygiene)
+					r2 := raceSolve(opt.scratch, j.o.Name+".retry", j.vc.query(j.o), 2*t, false)
+					if r2.Answer == "unsat" || r2.Answer == "sat" {
+						r = r2
+					}
+				}
+				j.o.Result = &r
+			}
+		}()
+	}
+	for _, j := range jobs {
+		ch <- j
+	}
+	close(ch)
+	wg.Wait()
+}
+
+func (o *Obligation) ok() bool {
+	if o.Result == nil {
+		return false
+	}
+	if o.Expect == "fail" {
+		return o.Result.Answer != "unsat"
+	}
+	return o.Result.Answer == "unsat"
+}
+
+func main() {
+	if len(os.Args) < 2 {
+		fmt.Fprintln(os.Stderr, "usage: govc verify|check|list ...")
+		os.Exit(2)
+	}
+	switch os.Args[1] {
+	case "verify":
+		cmdVerify(os.Args[2:])
+	case "check":
+		cmdCheck(os.Args[2:])
+	case "list":
+		cmdList(os.Args[2:])
+	case "selftest":
+		cmdSelftest(os.Args[2:])
+	default:
+		fmt.Fprintln(os.Stderr, "unknown command", os.Args[1])
+		os.Exit(2)
+	}
+}
+
+func cmdList(args []string) {
+	fs := flag.NewFlagSet("list", flag.ExitOnError)
+	repo := fs.String("repo", "/repo", "")
+	spec := fs.String("spec", "/verif/spec", "")
+	fs.Parse(args)
+	env, err := loadEnv(*repo, *spec, nil)
+	if err != nil {
+		fmt.Fprintln(os.Stderr, err)
+		os.Exit(2)
+	}
+	var keys []string
+	for k := range env.funcC {
+		keys = append(keys, k)
+	}
+	sort.Strings(keys)
+	for _, k := range keys {
+		f := env.findFunction(k)
+		st := "bound"
+		if f == nil {
+			st = "UNBOUND"
+		}
+		fmt.Printf("%-60s %s\n", k, st)
+	}
+}
+
+func cmdVerify(args []string) {
+	fs := flag.NewFlagSet("verify", flag.ExitOnError)
+	repo := fs.String("repo", "/repo", "")
+	spec := fs.String("spec", "/verif/spec", "")
+	funcs := fs.String("funcs", "", "comma-separated function keys (default: all with contracts)")
+	timeout := fs.Int("timeout", 20, "")
+	all := fs.Bool("all-backends", false, "")
+	keep := fs.String("keep", "", "keep queries in this directory")
+	verbose := fs.Bool("v", false, "")
+	only := fs.String("only", "", "substring filter on obligation names")
+	mutant := fs.String("mutant", "", "verify the tree with this patch applied (through an overlay; /repo is not touched)")
+	fs.Parse(args)
+	start := time.Now()
+	var overlay map[string][]byte
+	if *mutant != "" {
+		var err error
+		overlay, err = overlayFromPatch(*repo, *mutant)
+		if err != nil {
+			fmt.Fprintln(os.Stderr, "mutant:", err)
+			os.Exit(2)
+		}
+	}
+	env, err := loadEnv(*repo, *spec, overlay)
+	if err != nil {
+		fmt.Fprintln(os.Stderr, err)
+		os.Exit(2)
+	}
+	fmt.Printf("[govc] loaded in %.1fs\n", time.Since(start).Seconds())
+	var keys []string
+	if *funcs != "" {
+		keys = strings.Split(*funcs, ",")
+	} else {
+		for k, d := range env.funcC {
+			if !hasClause(d, "trusted") {
+				keys = append(keys, k)
+			}
+		}
+		sort.Strings(keys)
+	}
+	scratch := *keep
+	if scratch == "" {
+		scratch, _ = os.MkdirTemp("", "govc")
+		defer os.RemoveAll(scratch)
+	} else {
+		os.MkdirAll(scratch, 0o755)
+	}
+	var vcs []*VC
+	bad := 0
+	for _, k := range keys {
+		d := env.funcC[k]
+		if d == nil {
+			fmt.Printf("no contract for %s\n", k)
+			bad++
+			continue
+		}
+		fn := env.findFunction(k)
+		if fn == nil {
+			fmt.Printf("BINDING FAILURE: no function %s\n", k)
+			bad++
+			continue
+		}
+		vc := newVC(env, fn, d)
+		if err := vc.generate(); err != nil {
+			fmt.Printf("GENERATION FAILED: %v\n", err)
+			bad++
+			continue
+		}
+		if *only != "" {
+			var keepO []*Obligation
+			for _, o := range vc.obls {
+				if strings.Contains(o.Name, *only) {
+					keepO = append(keepO, o)
+				}
+			}
+			vc.obls = keepO
+		}
+		vcs = append(vcs, vc)
+	}
+	discharge(vcs, runOpts{scratch: scratch, timeoutS: *timeout, all: *all, workers: 6, verbose: *verbose})
+	total, okN := 0, 0
+	for _, vc := range vcs {
+		for _, o := range vc.obls {
+			total++
+			if o.ok() {
+				okN++
+				if *verbose {
+					fmt.Printf("  ok   %-70s %s %.2fs\n", o.Name, o.Result.Backend, o.Result.TimeS)
+				}
+				continue
+			}
+			fmt.Printf("  FAIL %-70s %s [%s] %s\n", o.Name, o.Result.Answer, o.Pos, o.Result.Backend)
+			if o.Result.Answer == "sat" && len(o.Witness) > 0 {
+				for _, w := range o.Witness {
+					fmt.Printf("         %s = %s\n", w.Name, o.Result.Values[strings.Trim(w.T, "|")])
+				}
+			}
+			if o.Result.Answer == "error" || *verbose {
+				fmt.Println(truncate(o.Result.Output, 1500))
+			}
+		}
+	}
+	fmt.Printf("[govc] %d functions, %d obligations, %d as expected, %d not; %.1fs\n", len(vcs), total, okN, total-okN, time.Since(start).Seconds())
+	if bad > 0 || okN != total {
+		os.Exit(1)
+	}
+}
+
+// overlayFromPatch applies a unified diff to copies of the files it touches and returns them as
+// an overlay for go/packages.
+func overlayFromPatch(repo, patch string) (map[string][]byte, error) {
+	data, err := os.ReadFile(patch)
+	if err != nil {
+		return nil, err
+	}
+	tmp, err := os.MkdirTemp("", "govc-mutant")
+	if err != nil {
+		return nil, err
+	}
+	defer os.RemoveAll(tmp)
+	var files []string
+	for _, l := range strings.Split(string(data), "\n") {
+		if strings.HasPrefix(l, "+++ ") {
+			f := strings.Fields(l)[1]
+			f = strings.TrimPrefix(f, "b/")
+			if f != "/dev/null" {
+				files = append(files, f)
+			}
+		}
+	}
+	for _, f := range files {
+		src, err := os.ReadFile(filepath.Join(repo, f))
+		if err != nil {
+			src = nil // new file
+		}
+		os.MkdirAll(filepath.Dir(filepath.Join(tmp, f)), 0o755)
+		if err := os.WriteFile(filepath.Join(tmp, f), src, 0o644); err != nil {
+			return nil, err
+		}
+	}
+	abs, _ := filepath.Abs(patch)
+	cmd := exec.Command("patch", "-p1", "-s", "-d", tmp, "-i", abs)
+	if out, err := cmd.CombinedOutput(); err != nil {
+		return nil, fmt.Errorf("patch failed: %v: %s", err, out)
+	}
+	ov := map[string][]byte{}
+	for _, f := range files {
+		b, err := os.ReadFile(filepath.Join(tmp, f))
+		if err != nil {
+			return nil, err
+		}
+		ov[filepath.Join(repo, f)] = b
+	}
+	return ov, nil
+}
+
+func hasClause(d *Decl, kind string) bool {
+	for _, c := range d.Clauses {
+		if c.Kind == kind {
+			return true
+		}
+	}
+	return false
+}
+
+func cmdCheck(args []string)    { fmt.Println("not yet"); os.Exit(2) }
+func cmdSelftest(args []string) { fmt.Println("not yet"); os.Exit(2) }
